@@ -627,8 +627,12 @@ def merging_takes_lists_over_whole(ctx, rid):
                 "merging may discard is the tree that equals the other (R10-e), and that is decided on whole paths, aliases "
                 "included. A filter that recognises `self` by its variant alone drops `self as x` together with the duplicate "
                 "`self` (`use foo; use foo::{self as f, bar};` ↦ `use foo::{self, bar};`)")
-    fam = [f for f in p.by_crate["rustfmt_nightly"]
-           if re.search(r"imports::(merge_rest|UseTree::merge)$", (f.root or f.id))]
+    from common import unit_with_private_helpers
+    seeds = [f for f in p.by_crate["rustfmt_nightly"] if re.search(r"imports::(merge_rest|UseTree::merge)$", (f.root or f.id))]
+    seed_ids = {f.root or f.id for f in seeds}
+    # a helper extracted from the two is part of them; a function that calls back into them (merge_use_trees_inner, which picks
+    # the partner of a merge and recurses) drives the merge and is not
+    fam = unit_with_private_helpers(p, seeds, exclude=lambda h: any(c.name in seed_ids for k in p.body_family(h) for c in k.calls()))
     seen = 0
     for f in fam:
         for c in f.calls():
